@@ -215,9 +215,15 @@ def rule_similarity(ctx, m):
     derived = {}
     for name, body in arms.items():
         for s in walk_stmts(body):
+            # default filling: `if p is None: p = ...` or `p = ... if p is None else p`
+            fill = None
             if s.k == 'if' and s.cond[0] == 'bin' and s.cond[1] == 'is' and s.cond[3] == ('none',) and s.cond[2][0] == 'var':
-                p = s.cond[2][1]
-                if p in f.args and any(x[0] == 'call' for t in walk_stmts(s.then) if t.k == 'assign' for x in walk_expr(t.value)):
+                fill = (s.cond[2][1], [t.value for t in walk_stmts(s.then) if t.k == 'assign'])
+            elif s.k == 'assign' and s.target[0] == 'var' and s.value[0] == 'cond' and s.value[1] == ('bin', 'is', s.target, ('none',)) and s.value[3] == s.target:
+                fill = (s.target[1], [s.value[2]])
+            if fill is not None:
+                p = fill[0]
+                if p in f.args and any(x[0] == 'call' for v_ in fill[1] for x in walk_expr(v_)):
                     used = any(('var', p) in list(walk_expr(v)) for v in _assign_of(body, 'S'))
                     if used:
                         derived.setdefault(p, []).append(name)
@@ -261,12 +267,22 @@ def _reported(f, flag='return_params'):
     ex = Exec()
     ex.run(f.body, Env())
     out = set()
-    for path, value, st in ex.returns:
-        if st.k != 'return' or st.value is None or st.value[0] != 'tuple':
+    def leaves(val, path):
+        if val is not None and val[0] == 'cond':
+            yield from leaves(val[2], path + (val[1],))
+            yield from leaves(val[3], path + (('un', 'not', val[1]),))
+        else:
+            yield path, val
+    for path0, _value, st in ex.returns:
+        if st.k != 'return' or st.value is None:
             continue
-        if any(c == ('un', 'not', ('var', flag)) for c in path):
-            continue
-        out |= {x[1] for x in st.value[1] if x[0] == 'var'}
+        # the returned expression as written (names, not their values), with conditional expressions split into paths
+        for path, val in leaves(st.value, tuple(path0)):
+            if val is None or val[0] != 'tuple':
+                continue
+            if any(c == ('un', 'not', ('var', flag)) for c in path):
+                continue
+            out |= {x[1] for x in val[1] if x[0] == 'var'}
     return out
 
 
